@@ -4,7 +4,6 @@ import (
 	"bytes"
 	"errors"
 	"fmt"
-	"io"
 
 	"github.com/gorilla/websocket"
 	"pgregory.net/rapid"
@@ -20,6 +19,8 @@ type ReadCase struct {
 	S      Stream  `json:"stream"`
 	Chunks []int   `json:"chunks,omitempty"`
 	Reads  []RStep `json:"reads,omitempty"`
+	// EOFWith: the transport returns its last bytes together with io.EOF.
+	EOFWith bool `json:"eof_with,omitempty"`
 }
 
 func genReaderCfg(t *rapid.T) ConnCfg {
@@ -44,6 +45,7 @@ func genReadCase(t *rapid.T) ReadCase {
 	}
 	c.Chunks = genChunks(t, "chunks", total)
 	c.Reads = genReadProgram(t, c.R.ReadBuf, true, true)
+	c.EOFWith = rapid.Bool().Draw(t, "eof_with_last_bytes")
 	return c
 }
 
@@ -177,6 +179,7 @@ func checkC03(c ReadCase, o *Obs) error {
 		return err
 	}
 	tr.SetInput(model.Wire, c.Chunks)
+	tr.EOFWithData = c.EOFWith
 	h := &handlerLog{failAt: -1, def: true}
 	h.install(conn)
 	lens := make([]int, len(model.Msgs))
@@ -203,8 +206,6 @@ func checkC03(c ReadCase, o *Obs) error {
 		if !errors.As(rt.Final, &ce) || ce.Code != code || ce.Text != text {
 			return fmt.Errorf("stream ends with close (%d,%q) but the reader ended with: %v", code, text, rt.Final)
 		}
-	} else if rt.Final == io.EOF {
-		return errors.New("reader reported bare io.EOF at end of stream")
 	}
 	// every control frame reached its handler exactly once, in wire order
 	// (ordering relative to data is C08)
@@ -273,6 +274,7 @@ func classifyRead(c ReadCase, model *Model, o *Obs) {
 	o.ClassIf(comp, "compressed_msg")
 	o.ClassIf(aband, "abandoning_reads")
 	o.ClassIf(split, "chunked_transport")
+	o.ClassIf(c.EOFWith, "eof_with_last_bytes")
 	o.ClassIf(model.Close != nil, "close_frame")
 	o.Class("reader_" + c.R.Role())
 	if len(model.Msgs) > 0 && (multi || inside || comp || aband || split) {
